@@ -209,9 +209,9 @@ def run(ck, tier):
     paths = build("asan")
     tools = build_ref()
     sc = getattr(ck, "scale", 1.0)
-    n = int((600 if tier == "quick" else 12000) * sc)
+    n = int((900 if tier == "quick" else 12000) * sc)
     common.pmap(lambda i: run_case(ck, paths, tools, i), range(n), workers=12)
-    if ck.cov.get("certified", 0) < (150 if tier == "quick" else 2000) * min(1.0, sc):
+    if ck.cov.get("certified", 0) < (200 if tier == "quick" else 2000) * min(1.0, sc):
         ck.note_inconclusive("only %d certified cases" % ck.cov.get("certified", 0))
     ck.rule = ("planted pairwise alignments (random core, 0-20% substitutions, indels of 1..25 separated by >= 12 (sometimes only 3 or 6) conserved columns, terminal overhangs 0..150) for all five "
                "types and user penalties (flat gpo=gpe=tgpe, gpe=tgpe, general), lengths 15..1300 clustered around 480..520, each side 1..3 identical copies, 1/4 threads, shuffled "
